@@ -316,13 +316,20 @@ impl THistory {
                     }
                 };
                 let renet_was_disconnected = c.renet.is_disconnected();
+                let netcode_was_disconnected = c.transport.verif_netcode_client().is_disconnected();
                 let r = if code == 203 { c.transport.update(Duration::from_nanos(dt), &mut c.renet) } else { c.transport.send_packets(&mut c.renet) };
                 let err = r.err();
                 // C20: a disconnect decided by the message layer is pushed down by the next update, whatever the handshake state
                 let layers_disagree = code == 203 && renet_was_disconnected && !c.transport.verif_netcode_client().is_disconnected();
+                // and the other way round: a netcode session that has ended (refused, timed out, expired, closed by the server)
+                // is pushed up by the next update, whether or not the message layer had ever been connected
+                let not_pushed_up = code == 203 && netcode_was_disconnected && !c.renet.is_disconnected();
                 if let Some(NetcodeTransportError::IO(e)) = &err {
                     // an OS level failure is outside the model: report it as a harness problem, not as a violation
                     self.comment(&format!("io error {}", e));
+                }
+                if not_pushed_up {
+                    self.violate("C20", format!("client {}: the netcode layer was disconnected before NetcodeClientTransport::update and the message layer is still not disconnected after it", k));
                 }
                 if layers_disagree {
                     self.violate("C20", format!("client {}: the message layer was disconnected before NetcodeClientTransport::update and the netcode layer is still not disconnected after it", k));
